@@ -375,6 +375,29 @@ pub fn source_alphabet_stage(rep: &mut Report, env: &AppEnv, stage: &str, payloa
     let t0 = std::time::Instant::now();
     let s4: Vec<Ip> = vec![cli4(), cli4b(), Ip::V4([0, 0, 0, 0]), Ip::V4([255, 255, 255, 255]), Ip::V4([10, 0, 1, 255]), Ip::V4([10, 0, 0, 255]), Ip::V4([10, 0, 1, 0]), Ip::V4([224, 0, 0, 9]), Ip::V4([127, 0, 0, 1]), Ip::V4([169, 254, 1, 1]), srv4(), Ip::V4([192, 0, 2, 255]), Ip::V4([1, 255, 255, 255])];
     let s6: Vec<Ip> = ["2001:db8::9", "2001:db8::a", "::ffff:10.0.0.9", "::10.0.0.9", "::", "::1", "fe80::9", "ff02::9", "2001:db8::1", "2001:db8::ff", "64:ff9b::a00:9", "2001:db8::ffff:ffff:ffff:ffff", "::ffff:10.0.1.255"].iter().map(|a| Ip::parse(a)).collect();
+    // and every value of every byte of the client address (the others as in the usual client's)
+    let mut s4 = s4;
+    let mut s6 = s6;
+    let nforms = s4.len() + s6.len();
+    if let Ip::V4(b) = cli4() {
+        for pos in 0..4 {
+            for val in 0..=255u8 {
+                let mut a = b;
+                a[pos] = val;
+                s4.push(Ip::V4(a));
+            }
+        }
+    }
+    if let Ip::V6(b) = cli6() {
+        for pos in 0..16 {
+            for val in 0..=255u8 {
+                let mut a = b;
+                a[pos] = val;
+                s6.push(Ip::V6(a));
+            }
+        }
+    }
+    let _ = nforms;
     let n = (s4.len() + s6.len()) as u64;
     let key = env.cfg.key;
     let modes: Vec<bool> = [(udp, false), (tcp, true)].iter().filter(|m| m.0).map(|m| m.1).collect();
@@ -399,7 +422,7 @@ pub fn source_alphabet_stage(rep: &mut Report, env: &AppEnv, stage: &str, payloa
         |_it: &Item, _s: &mut Sink| {},
         &mut rep.sink,
     );
-    rep.stage(stage, "one request from 13 IPv4 and 13 IPv6 forms of client address (.255 / .0 host addresses, broadcast, unspecified, multicast, loopback, link-local, the responder's own, IPv4-mapped / -compatible / NAT64), as datagram and / or behind [SYN, data], monitored", n * nm, t0);
+    rep.stage(stage, "one request from 13 IPv4 and 13 IPv6 forms of client address (.255 / .0 host addresses, broadcast, unspecified, multicast, loopback, link-local, the responder's own, IPv4-mapped / -compatible / NAT64) and from every value 0..255 of each of the 4 / 16 bytes of the client address, as datagram and / or behind [SYN, data], monitored", n * nm, t0);
 }
 
 /// Datagrams whose source port EQUALS their destination port (53 -> 53, 5353 -> 5353, every N ->
@@ -595,6 +618,19 @@ pub fn sibling_conv_stage(rep: &mut Report, cfg: &Cfg, prop: &'static str, stage
         fb.sip = *b;
         flows.push((fa, fb));
     }
+    // connections between the SAME two addresses whose port pairs are neighbours (source port +-1,
+    // destination port + 256 k): every ordered pair of a 3 x 3 grid, per IP version
+    let naddr_pairs = flows.len();
+    let grid: Vec<(u16, u16)> = [39999u16, 40000, 40001].iter().flat_map(|s| [80u16, 336, 592].iter().map(move |d| (*s, *d))).collect();
+    for v6 in [false, true] {
+        for a in &grid {
+            for b in &grid {
+                if a != b {
+                    flows.push((flow(v6, a.0, a.1), flow(v6, b.0, b.1)));
+                }
+            }
+        }
+    }
     let all: Vec<Flow> = flows.iter().flat_map(|p| [p.0.clone(), p.1.clone()]).collect();
     let ck = learn_cookies(cfg, &all).unwrap_or_default();
     let mut d = match crate::driver::Driver::spawn(cfg) {
@@ -615,11 +651,15 @@ pub fn sibling_conv_stage(rep: &mut Report, cfg: &Cfg, prop: &'static str, stage
         v
     };
     let mut n = 0u64;
-    for (fa, fb) in &flows {
+    for (pi, (fa, fb)) in flows.iter().enumerate() {
         if !ck.contains_key(&key_of(fa)) || !ck.contains_key(&key_of(fb)) {
             continue;
         }
         for (y, (yname, ysegs)) in convs.iter().enumerate() {
+            // (port neighbours: every fourth conversation, rotating with the pair)
+            if pi >= naddr_pairs && (y + pi) % 4 != 0 {
+                continue;
+            }
             // B alone
             let mut alone = vec![Cmd::Reset];
             alone.extend(conv_cmds(fb, ysegs));
@@ -637,7 +677,7 @@ pub fn sibling_conv_stage(rep: &mut Report, cfg: &Cfg, prop: &'static str, stage
                         rep.sink.violation(crate::engine::Violation {
                             prop: prop.into(),
                             key: format!("sibling-connection:{}", yname),
-                            what: format!("conversation '{}' to {} (segment {}): after the same client endpoint sent the first segment of '{}' to {} the reply is {} instead of {} (idle process)", yname, fb.sip, k + 1, xname, fa.sip, &got[..got.len().min(80)], want.get(k).map(|w| &w[..w.len().min(80)]).unwrap_or("-")),
+                            what: format!("conversation '{}' to {} ports {}>{} (segment {}): after the same client sent the first segment of '{}' to {} ports {}>{} the reply is {} instead of {} (idle process)", yname, fb.sip, fb.cport, fb.sport, k + 1, xname, fa.sip, fa.cport, fa.sport, &got[..got.len().min(80)], want.get(k).map(|w| &w[..w.len().min(80)]).unwrap_or("-")),
                             cfg: cfg.clone(),
                             cmds: cmds[..=2 + k].to_vec(),
                             idx: n,
@@ -650,7 +690,7 @@ pub fn sibling_conv_stage(rep: &mut Report, cfg: &Cfg, prop: &'static str, stage
         }
     }
     rep.sink.count("frames", n);
-    rep.stage(stage, &format!("7 pairs of local addresses (second handled address, same /64 with other interface identifiers, other /64, same and other /24) x {} conversations on B x 2 first segments on A, one client endpoint: B answered as by an idle process", convs.len()), n, t0);
+    rep.stage(stage, &format!("7 pairs of local addresses (second handled address, same /64 with other interface identifiers, other /64, same and other /24) x {} conversations on B x 2 first segments on A, one client endpoint; and 144 ordered pairs of connections between the same two addresses with neighbouring port pairs (source 39999..40001 x destination 80 / 336 / 592, per IP version) x every fourth conversation: B answered as by an idle process", convs.len()), n, t0);
 }
 
 /// Conversations on a flow whose SYN cookie is an edge value (0xffffffff / 0 / 0xfffffffe / 1, by
@@ -1926,6 +1966,43 @@ pub fn run_c17(rep: &mut Report, thorough: bool) {
             let l: Vec<&str> = s1[(i / 2) as usize].iter().map(|k| d1[*k]).collect();
             (two[(i % 2) as usize], appsmb::smb1_negotiate(&Smb1Hdr::new(0x72), &l))
         });
+        // names NEXT to the supported ones: every proper prefix (the empty name included), one more
+        // character, one character flipped in case or replaced - offered before the genuine name,
+        // after it, and alone
+        {
+            let mut near: Vec<String> = Vec::new();
+            for k in &d1[..3] {
+                for n in 0..k.len() {
+                    near.push(k[..n].to_string());
+                }
+                for c in [" ", "X", "0", "?", ".", "\u{1}"] {
+                    near.push(format!("{}{}", k, c));
+                    near.push(format!("{}{}", c, k));
+                }
+                for n in 0..k.len() {
+                    let b = k.as_bytes()[n];
+                    let mut t = k.as_bytes().to_vec();
+                    t[n] = if b.is_ascii_uppercase() { b.to_ascii_lowercase() } else if b.is_ascii_lowercase() { b.to_ascii_uppercase() } else { b ^ 1 };
+                    near.push(String::from_utf8_lossy(&t).to_string());
+                }
+            }
+            near.sort();
+            near.dedup();
+            near.retain(|n| !d1[..3].contains(&n.as_str()));
+            let dims = [2u64, 3, 4, near.len() as u64];
+            sweep_app(rep, &env, &format!("smb1-dialect-name-neighbours-{}", tag), "names next to the 3 supported dialect strings (every proper prefix incl. the empty name, one character more at either end, one character case-flipped / replaced) x {before, after, between two unknown, alone} x the supported name x {UDP, TCP}", product(&dims), |i| {
+                let d = unrank(i, &dims);
+                let nb = near[d[3] as usize].as_str();
+                let k = d1[d[1] as usize];
+                let l: Vec<&str> = match d[2] {
+                    0 => vec![nb, k],
+                    1 => vec![k, nb],
+                    2 => vec!["LANMAN1.0", nb, k],
+                    _ => vec![nb],
+                };
+                (two[d[0] as usize], appsmb::smb1_negotiate(&Smb1Hdr::new(0x72), &l))
+            });
+        }
         sweep_app(rep, &env, &format!("smb-blob-{}", tag), "session-setup blob lengths 1..64 x {SMB1, SMB2} x {UDP, TCP}", 64 * 2 * 2, |i| {
             let d = unrank(i, &[2, 2, 64]);
             let blob: Vec<u8> = (0..=d[2]).map(|k| k as u8).collect();
